@@ -252,6 +252,30 @@ package querylog
 //@ sweep C05 fieldcall:github.com/AdguardTeam/AdGuardHome/internal/querylog.Config.ConfigModified
 
 // ---- C08: a name on the ignore list, or a client flagged to be ignored, is never logged ----
+// The anonymiser shared with the DNS server follows the setting: after every configuration request (accepted or refused)
+// the mutator holds a real anonymiser exactly when the configuration in force says so - for the *new* configuration,
+// whichever way the request changed it.  (The configuration-modified callback writes the file and changes nothing here:
+// assumed for the function value stored in the field.)
+//@ func (fieldcall) Config_ConfigModified()
+//@   modifies nothing
+//@ func validateIvl(ivl time.Duration) (err error)
+//@   pure-function
+//@   modifies nothing
+//@ func checkInterval(ivl time.Duration) (ok bool)
+//@   pure-function
+//@   modifies nothing
+//@ func (l *queryLog) handlePutQueryLogConfig(w http.ResponseWriter, r *http.Request)
+//@   property C08
+//@   requires nolocks()
+//@   requires l.anonymizer != nil && l.conf != nil && mutOn[l.anonymizer] == l.conf.AnonymizeClientIP
+//@   ensures anonymizer-follows-the-setting: mutOn[l.anonymizer] == l.conf.AnonymizeClientIP
+//@   modifies *
+//@ func (l *queryLog) handleQueryLogConfig(w http.ResponseWriter, r *http.Request)
+//@   property C08
+//@   requires nolocks()
+//@   requires l.anonymizer != nil && l.conf != nil && mutOn[l.anonymizer] == l.conf.AnonymizeClientIP
+//@   ensures anonymizer-follows-the-setting: mutOn[l.anonymizer] == l.conf.AnonymizeClientIP
+//@   modifies *
 //@ func (l *queryLog) isIgnored(host string) (r0 bool)
 //@   property C08
 //@   ensures r0 == l.conf.Ignored.Has(host)
